@@ -103,35 +103,41 @@ def make_fn():
             tb = restore(snap, logdict=False)
             tb.db = t2.db  # same database object for both tries
             try:
-                apply_op(tb, m2, op)
+                with tb.at_root(snap[0]) as ts:  # a snapshot of the present root, taken before the write and iterated after it
+                    apply_op(tb, m2, op)
             except Exception:  # noqa
                 continue
             if tb.root_hash == snap[0]:
                 continue
-            o.evals += 1
-            ta = type(tb)(t2.db, snap[0])
-            try:
-                ia, ib = NodeIterator(ta).items(), NodeIterator(tb).items()
-                got_a, got_b = [], []
-                done_a = done_b = False
-                while not (done_a and done_b):
-                    if not done_a:
-                        try:
-                            got_a.append(next(ia))
-                        except StopIteration:
-                            done_a = True
-                    if not done_b:
-                        try:
-                            got_b.append(next(ib))
-                        except StopIteration:
-                            done_b = True
-                if got_a != want_items or got_b != sorted(m2.items()):
-                    o.viol("C10", "interleaved_walks_wrong", "two walks advanced alternately do not each yield their own trie's pairs in order",
-                           call="items", op=op, model=model)
+            bad = False
+            for how, ta in (("a second trie opened at the old root", type(tb)(t2.db, snap[0])), ("an at_root snapshot taken before the write", ts)):
+                o.evals += 1
+                try:
+                    ia, ib = NodeIterator(ta).items(), NodeIterator(tb).items()
+                    got_a, got_b = [], []
+                    done_a = done_b = False
+                    while not (done_a and done_b):
+                        if not done_a:
+                            try:
+                                got_a.append(next(ia))
+                            except StopIteration:
+                                done_a = True
+                        if not done_b:
+                            try:
+                                got_b.append(next(ib))
+                            except StopIteration:
+                                done_b = True
+                    if got_a != want_items or got_b != sorted(m2.items()):
+                        o.viol("C10", "interleaved_walks_wrong", f"two walks advanced alternately ({how} / the modified trie) do not each yield their own "
+                               "trie's pairs in order", call="items", op=op, model=model, how=how)
+                        bad = True
+                        break
+                    o.nontrivial += 1
+                except Exception as e:  # noqa
+                    o.viol("C10", "iter_raised", f"interleaved walks raised {type(e).__name__}", call="items", op=op, exc=repr(e)[:160], how=how)
+                    bad = True
                     break
-                o.nontrivial += 1
-            except Exception as e:  # noqa
-                o.viol("C10", "iter_raised", f"interleaved walks raised {type(e).__name__}", call="items", op=op, exc=repr(e)[:160])
+            if bad:
                 break
         # one iterator object, queries, a modification of the trie, the same queries again
         tm = restore(snap, logdict=False)
